@@ -61,6 +61,7 @@ var (
 	flagNoReplay = flag.Bool("no-replay", false, "skip native replay of counterexamples")
 	flagParams  = flag.String("params", "", "override params: N=2,L=3")
 	flagDump    = flag.String("dump", "", "dump SSA of function (debug)")
+	flagTimeLimit = flag.Int("timelimit", 0, "per-entry exploration time limit in seconds (0: registry value or 900)")
 )
 
 func main() {
@@ -295,8 +296,12 @@ func runProperty(prop, tier string) int {
 			cfg.Preempt = *tc.Preempt
 		}
 		ex := &Explorer{prog: ld.prog, entry: fn, cfg: cfg, workers: workers, sh: sh, property: prop, traceSched: true}
+		ex.timeLimit = 900 * time.Second
 		if tc.TimeLimit > 0 {
 			ex.timeLimit = time.Duration(tc.TimeLimit) * time.Second
+		}
+		if *flagTimeLimit > 0 {
+			ex.timeLimit = time.Duration(*flagTimeLimit) * time.Second
 		}
 		ex.overrides = map[string]*ssa.Function{}
 		for from, to := range pc.Overrides {
